@@ -173,6 +173,7 @@ type run struct {
 	em  *EModel
 
 	muted    bool   // seam events are passed through unrecorded (preliminary, unjudged call)
+	kb       *ast.KnowledgeBase
 	aborted  string // "" | envelope | runaway: the run is being wound down, nothing is judged any more
 	abortWhy string
 	seq      int
@@ -509,6 +510,13 @@ func (r *run) OnBegin(id int, cycle uint64) {
 	r.lsnSeq[id] = append(r.lsnSeq[id], fmt.Sprintf("B%d", cycle))
 	if id == 0 {
 		r.logf("-- listener Begin(%d)", cycle)
+		if k := r.sc.Knobs.RemoveAtCycle; k > 0 && k == cycle && r.kb != nil && !r.muted {
+			// the application removes a rule from the instance while Execute is running (from a callback)
+			r.logf("-- listener removes rule %s", r.sc.Knobs.RemoveAtCycleRule)
+			r.kb.RemoveRuleEntry(r.sc.Knobs.RemoveAtCycleRule)
+			r.em.removed[r.sc.Knobs.RemoveAtCycleRule] = true
+			r.res.probe("rule-removed-during-execute")
+		}
 		r.em.onBegin(r, cycle)
 	}
 }
@@ -538,6 +546,10 @@ func (r *run) OnExec(id int, cycle uint64, re *ast.RuleEntry) {
 	}
 }
 
+// otherInstance, when set, is the instance the judged call's data context is used with first
+// (Knobs.OtherInstanceFirst). Single-threaded: Sim E runs one scenario at a time.
+var otherInstance *ast.KnowledgeBase
+
 // Run executes one Sim E scenario.
 func Run(sc *core.Scenario) *Result {
 	res := &Result{Probes: map[string]int64{}, Faults: map[string]int{}, MethodCalls: map[string]int{}}
@@ -552,13 +564,26 @@ func Run(sc *core.Scenario) *Result {
 		res.HarnessErr = fmt.Sprintf("generated program rejected by the builder: %v\n%s", err, text)
 		return res
 	}
-	for _, name := range sc.Removed {
-		lib.RemoveRuleEntry(name, KBName, KBVersion)
+	if !sc.Knobs.RemoveOnInstance {
+		for _, name := range sc.Removed {
+			lib.RemoveRuleEntry(name, KBName, KBVersion)
+		}
 	}
 	kb, err := Instance(lib, sc.Knobs.Source)
 	if err != nil {
 		res.Violations = append(res.Violations, core.Violation{Oracle: "C09.instance-failed", Property: "C09", Message: fmt.Sprintf("no instance via %q: %v", sc.Knobs.Source, err)})
 		return res
+	}
+	if sc.Knobs.RemoveOnInstance {
+		for _, name := range sc.Removed {
+			kb.RemoveRuleEntry(name)
+		}
+	}
+	if sc.Knobs.OtherInstanceFirst {
+		if other, err := lib.NewKnowledgeBaseInstance(KBName, KBVersion); err == nil {
+			otherInstance = other
+			defer func() { otherInstance = nil }()
+		}
 	}
 	// earlier calls on the same instance (their own results are not judged here): whatever they
 	// leave behind must not influence the call under test
@@ -654,6 +679,9 @@ func Prepare(sc *core.Scenario, kb *ast.KnowledgeBase, res *Result) *Handle {
 	nRules := len(sc.Program.Rules)
 	r.maxEvent = 4000 + int(sc.Knobs.MaxCycle+2)*(nRules+1)*600
 	r.factHooks = &grl.Hooks{OnCall: func(fact, method string, args []interface{}) {
+		if r.muted {
+			return // a preliminary, unjudged call: its method invocations are not this call's
+		}
 		key := fact + "." + method
 		res.MethodCalls[key]++
 		r.logf("-- method %s.%s%v", fact, method, args)
@@ -672,6 +700,7 @@ func Prepare(sc *core.Scenario, kb *ast.KnowledgeBase, res *Result) *Handle {
 	r.em = newEModel(sc)
 	r.em.before = grl.Canon(rf.State())
 	r.lsnSeq = make([][]string, sc.Knobs.Listeners)
+	r.kb = kb
 	return &Handle{r: r, kb: kb}
 }
 
@@ -693,6 +722,17 @@ func (h *Handle) Execute() {
 		r.cancelled, r.cancelSeq = true, 0
 	}
 
+	if sc.Knobs.OtherInstanceFirst && otherInstance != nil && otherInstance != kb {
+		// the data context has been used before, with another instance (no action runs in a fetch: the facts
+		// are as they were)
+		r.muted = true
+		func() {
+			defer func() { _ = recover() }()
+			_, _ = (&engine.GruleEngine{MaxCycle: 1}).FetchMatchingRules(dctx, otherInstance)
+		}()
+		r.muted = false
+		res.Probes["data-context-used-with-another-instance-first"]++
+	}
 	if sc.Knobs.RefetchFrom != nil && r.mode == "fetch" {
 		// unjudged first fetch on the old values, then the caller changes its facts in place
 		r.muted = true
